@@ -221,6 +221,13 @@ namespace
       if(len == 0) ++SH->zero_buffers;
       SH->raw_bytes += len;
       DistFileIO::write_combined(SH->common, plan.raw, String("raw.bin"), comm, root);
+      // ordered file: the ranks' buffers back to back in rank order, no header; written twice to exercise truncation
+      if(((seed >> 3) & 1u) == 0u)   // the same decision on all ranks: write_ordered is collective
+      {
+        std::vector<char> junk(plan.raw.size() + 17u, 'x');
+        DistFileIO::write_ordered(junk.data(), junk.size(), String("ord.bin"), comm, true);
+      }
+      DistFileIO::write_ordered(plan.raw.data(), plan.raw.size(), String("ord.bin"), comm, true);
     }
     comm.barrier();
   }
@@ -255,6 +262,9 @@ namespace
       DistFileIO::read_combined(common, buf, String("raw.bin"), comm, root, true);
       if(buf != plan.raw) sim::fail("COMBINED_FILE_MISMATCH", "rank " + std::to_string(rank) + ": read_combined returned " + std::to_string(buf.size()) + " bytes, " + std::to_string(plan.raw.size()) + " were written (or content differs)");
       if(common != SH->common) sim::fail("COMBINED_FILE_MISMATCH", "rank " + std::to_string(rank) + ": common data of the combined file differs");
+      std::vector<char> ob(plan.raw.size(), '?');
+      DistFileIO::read_ordered(ob.data(), ob.size(), String("ord.bin"), comm);
+      if(ob != plan.raw) sim::fail("ORDERED_FILE_MISMATCH", "rank " + std::to_string(rank) + ": read_ordered returned other bytes than write_ordered wrote");
     }
     comm.barrier();
   }
@@ -294,6 +304,14 @@ std::string harness_run()
     unsigned long long h[4]; memcpy(h, d.data(), 32);
     if(h[1] != d.size()) sim::fail("CHECKPOINT_FILE_LAYOUT", "file size field " + std::to_string(h[1]) + " differs from the actual file size " + std::to_string(d.size()));
     if(h[2] != (unsigned long long)n) sim::fail("CHECKPOINT_FILE_LAYOUT", "rank count field wrong");
+  }
+  if(with_raw)
+  {
+    // an ordered file is the ranks' buffers in rank order and nothing else (the earlier, longer content is gone)
+    std::vector<char> want;
+    for(const RankPlan& rp : sh.ranks) want.insert(want.end(), rp.raw.begin(), rp.raw.end());
+    if(simmpi::fs().find("ord.bin") == simmpi::fs().end()) sim::fail("ORDERED_FILE_MISMATCH", "write_ordered did not create the file");
+    if(simmpi::fs()["ord.bin"]->data != want) sim::fail("ORDERED_FILE_MISMATCH", "ordered file holds " + std::to_string(simmpi::fs()["ord.bin"]->data.size()) + " bytes, the ranks wrote " + std::to_string(want.size()) + " (or content/order differs)");
   }
   simmpi::world_begin(n, [=](int r) { job_b(r, seed, root, with_raw, reload); });
   sim::run_go();
